@@ -88,6 +88,14 @@ class RealBreaker:
 
     def do(self, op: str, k: str, t: int) -> dict:
         self.now = t
+        # a second, busy breaker of the same class in the same process: instances share nothing
+        other = getattr(self, "other", None)
+        if other is None:
+            other = self.other = type(self.b)(failure_threshold=2, window_s=1e6, recovery_timeout_s=1e-9,
+                                             trip_on=set(self.EC), clock=lambda: 1e9 + self.now)
+        other.record_failure(self.EC.TRANSIENT)
+        other.allow()
+        other.record_success()
         allowed, ev = True, "-"
         try:
             if op == "allow":
